@@ -156,7 +156,7 @@ def begin(chk, crate):
             refuse_region_ok(chk, f, "C07-b/full-refusal", "begin_transaction", refuse,
                              "zvt_feig_terminal::feig::Error::ActiveTransaction", traffic)
     g2 = f.bool_switches(lambda e: is_call(e, "::contains_key") and mentions_path(e, "self", ("transactions",))
-                         and mentions_path(e, "token", ()))
+                         and mentions_path(e, f.param(2), ()))
     if chk.require(len(g2) == 1, "C07-b/open-guard", "begin_transaction",
                    "expected one contains_key(token) test on the token map, found %d" % len(g2), "", f.sp()):
         bb, e, tt, ft = g2[0]
@@ -173,7 +173,7 @@ def begin(chk, crate):
         return
     ibb, it = ins[0]
     key = f.ex.operand(it["args"][1])
-    chk.require(mentions_path(key, "token", ()) and not any(x[0] == "const" and isinstance(x[1], str) for x in walk(key)),
+    chk.require(mentions_path(key, f.param(2), ()) and not any(x[0] == "const" and isinstance(x[1], str) for x in walk(key)),
                 "C07-c/key", "begin_transaction", "the map key is %s, not the caller's token" % show(key)[:100],
                 "key = token", f.sp(ibb))
     # value: resolve a multiply assigned variable through its definitions
@@ -304,7 +304,7 @@ def close(chk, crate, name):
         return
     rbb, rt = rem[0]
     a0, a1 = f.ex.operand(rt["args"][0]), f.ex.operand(rt["args"][1])
-    chk.require(mentions_path(a0, "self", ("transactions",)) and mentions_path(a1, "token", ()), "C07-b/remove-args", name,
+    chk.require(mentions_path(a0, "self", ("transactions",)) and mentions_path(a1, f.param(2), ()), "C07-b/remove-args", name,
                 "the removal is remove(%s, %s), not remove(self.transactions, token)" % (show(a0), show(a1)),
                 "remove(&mut self.transactions, token)", f.sp(rbb))
     for tb, t, k in traffic:
@@ -424,7 +424,7 @@ def by_receipt(chk, crate):
     if chk.require(len(st) == 1, "C07-d/request", f.short, "expected one PreAuthReversal exchange, found %d" % len(st), "", f.sp()):
         req = f.ex.operand(st[0][1]["args"][0])
         rn = field_of_agg(req, "zvt::packets::PreAuthReversal::PreAuthReversal", "receipt_no")
-        chk.require(rn is not None and strip_ref(rn)[0] == "path" and strip_ref(rn)[1] == "receipt_no", "C07-d/receipt", f.short,
+        chk.require(rn is not None and strip_ref(rn)[0] == "path" and strip_ref(rn)[1] == f.param(2), "C07-d/receipt", f.short,
                     "PreAuthReversal.receipt_no is %s, not the function's receipt_no argument" % (show(rn) if rn else None),
                     "receipt_no = argument", f.sp(st[0][0]))
 
